@@ -809,11 +809,11 @@ def plan(tier, seed):
     if tier == 'quick':
         parts = 10
         specs = [{'kind': 'corpus', 'part': i, 'of': parts, 'tier': tier} for i in range(parts)]
-        specs += [{'kind': 'random', 'seed': seed * 1000 + i, 'units': 5, 'k_random': 6, 'tier': tier} for i in range(10)]
+        specs += [{'kind': 'random', 'seed': seed * 1000 + i, 'units': 4, 'k_random': 6, 'tier': tier} for i in range(10)]
         return specs
     parts = 16
     specs = [{'kind': 'corpus', 'part': i, 'of': parts, 'tier': tier} for i in range(parts)]
-    specs += [{'kind': 'random', 'seed': seed * 100000 + i, 'units': 60, 'k_random': 40, 'tier': tier} for i in range(48)]
+    specs += [{'kind': 'random', 'seed': seed * 100000 + i, 'units': 30, 'k_random': 30, 'tier': tier} for i in range(48)]
     assert n_units
     return specs
 
